@@ -2,8 +2,9 @@
 
 1. re-check the theorems of coq/C29/Props.v (about the hand-written model coq/C29/Render.v);
 2. correspondence: corpus + seeded random cases are rendered by the real
-   DiagnosticsRenderer of the repo under test (impl_render.py) and by the model evaluated
-   inside Coq (vm_compute); the buffers are compared line by line inside Coq;
+   DiagnosticsRenderer of the repo under test (impl_render.py) and by the model (its OCaml
+   extraction for the volume; corpus + a sample also by vm_compute inside Coq, which
+   cross-checks the extraction); the buffers are compared line by line;
 3. failing-input search (always run, cheap): every implementation output is judged by the
    specification-side oracle (oracle.py, written from the property text); a failing input is
    reported as a counterexample with a replay command;
